@@ -279,8 +279,8 @@ type GenOpt struct {
 	AllowKnown bool
 }
 
-var mainTypes = []string{"Ints", "Scalars", "Nulls", "Sers", "Embs", "Defs", "Comp", "Keyed", "StrKey", "UnixU"}
-var mapTypes = []string{"Ints", "Scalars", "Keyed", "Comp", "Embs"}
+var mainTypes = []string{"Ints", "Scalars", "Nulls", "Sers", "Embs", "Defs", "Comp", "Keyed", "StrKey", "UnixU", "Twice"}
+var mapTypes = []string{"Ints", "Scalars", "Keyed", "Comp", "Embs", "Twice"}
 
 func genInput(r *lib.Rng, id int, g GenOpt) Input {
 	if isGen(g.Type) {
@@ -301,7 +301,7 @@ func genInput(r *lib.Rng, id int, g GenOpt) Input {
 	in.NoMMap = hasSer(d) && !g.AllowKnown
 	if isMap {
 		in.MapKeys = lib.Pick(r, []string{"col", "col", "name"})
-		if g.Type == "Embs" {
+		if g.Type == "Embs" || g.Type == "Twice" {
 			in.MapKeys = "col" // Go field names repeat across embedded structs
 		}
 	}
@@ -376,6 +376,13 @@ func genInput(r *lib.Rng, id int, g GenOpt) Input {
 			}
 		}
 		in.Recs = append(in.Recs, rec)
+		x := []Val{}
+		if !isMap {
+			for _, f := range d.Extra {
+				x = append(x, genVal(r, f, f.Kind, f.goType, false))
+			}
+		}
+		in.XRecs = append(in.XRecs, x)
 	}
 	return in
 }
